@@ -613,6 +613,8 @@ impl BuildJob<'_> {
                     sf.read_stamp(ptx.state().env())
                         .expect("target file stat failed"),
                 );
+                // redo-stamp left the target marked unfinished; it is done now.
+                sf.failed_runid = None;
             } else {
                 sf.set_checksum(String::new());
                 if let Err(e) = sf.update_stamp(ptx.state().env(), false) {
